@@ -271,7 +271,7 @@ def models_read_input_only(ctx, run):
         finally:
             interp.shapes.pop("input", None)
         for r in res:
-            dcalls = [e for e in r["events"] if e["kind"] == "call" and e["callee"] == delta.qualname and (e.get("fn") or "").endswith(".forward")]
+            dcalls = [e for e in r["events"] if e["kind"] == "call" and e["callee"] == delta.qualname]   # from forward or a helper of it
             if len(dcalls) != 1:
                 problems.append(f"forward makes {len(dcalls)} calls to delta")
             else:
